@@ -3,12 +3,12 @@
 # applies the seeded patch to a private worktree of /repo and runs the registered check against it
 set -u
 SD=$1; PROP=$2; TIER=${3:-quick}
-WT=/tmp/wt-detect-$PROP
+WT=/tmp/wt-detect-$PROP${SEED_SUFFIX:-}
 if [ ! -d $WT ]; then git -C /repo worktree add -q --detach $WT HEAD; fi
 git -C $WT checkout -q --detach $(git -C /repo rev-parse HEAD) ; git -C $WT checkout -q -- . ; git -C $WT clean -qfd
 git -C $WT apply $SD/patch.diff || { echo "APPLY-FAILED" > $SD/detect_$PROP.txt; exit 1; }
 cd /verif
-VERIF_REPO=$WT VERIF_SCRATCH=/var/tmp/vs-detect ./check $PROP $TIER > $SD/detect_$PROP.log 2>&1
+VERIF_REPO=$WT VERIF_SCRATCH=/var/tmp/vs-detect${SEED_SUFFIX:-} ./check $PROP $TIER > $SD/detect_$PROP.log 2>&1
 RC=$?
 { echo "rc=$RC"; grep -E "^VIOLATION|^UNDECIDED|^KNOWN|failed obligation" $SD/detect_$PROP.log | head -20; } > $SD/detect_$PROP.txt
 git -C $WT checkout -q -- . ; git -C $WT clean -qfd
